@@ -5,7 +5,7 @@ SPEC = {
     "rule": "histories = seeded random interleavings of Arrive / Complete(any in-flight request, status code) / Tick over the real "
             "cbreaker.CircuitBreaker under the frozen clock; condition expressions drawn from the grammar (&&, ||, six comparisons, "
             "NetworkErrorRatio, ResponseCodeRatio, LatencyAtQuantileMS), fallback in {<0,0,1ms..1h}, recovery in {<0,0,1ms..73min, half dyadic}, "
-            "check period in {<0,0,1ms,100ms,1s,12s}; requests stay in flight across trips; "
+            "check period in {<0,0,1ms,100ms,1s,12s}; requests stay in flight across trips; one history in four is a stale-latency cycle (latency or latency-and-error-ratio condition, 70-130 s of responses with varied latencies in 7-13 ten-second periods so that the rolling latency histogram has wrapped around, a trip, 1-5 s fallback and recovery, then fast responses at due checks); "
             "non-trivial = the breaker tripped at least once; distinct = distinct (config, op sequence)",
     "trusted_base": ["model coq/Model/Breaker.v hand-written from cbreaker/cbreaker.go (activateFallback, checkAndSet, setState, "
                      "setRecovering), ratio.go, predicates.go and memmetrics/roundtrip.go; tie = differential replay of every "
